@@ -4,3 +4,5 @@ INVARIANT LocalShadows
 INVARIANT HostAssociation
 INVARIANT DefaultPrivateBlocksReexport
 INVARIANT RenameHidesOriginal
+INVARIANT CallableNeverAVariable
+INVARIANT OnlyListsAreExports
